@@ -134,7 +134,7 @@ def _p15(ctx):
 
     sinks = []
     for n in x.inlined(r'^alloc::allocate$'):
-        if g.nodes[n].inst != g.root_inst:
+        if x.home(n) != g.root_inst:
             continue
         sinks.append(('ring allocation', g.ev_local(g.nodes[n].call['inlined'], 1), g.where(n)))
     for n in x.inlined(r'countedindex::CountedIndex::new$'):
@@ -145,7 +145,7 @@ def _p15(ctx):
         e = x.agg_expr(nid, si)
         sinks.append(('capacity field', e[4][e[3].index('capacity')], x.where_stmt(nid, si)))
     for (nid, si, rv) in x.aggs(r'ops::Range::Range$|range::Range'):
-        if g.nodes[nid].inst == g.root_inst:
+        if x.home(nid) == g.root_inst:
             e = x.agg_expr(nid, si)
             sinks.append(('initialisation loop bound', e[4][1], x.where_stmt(nid, si)))
     ctx.floor('P15', len(sinks), 6, 'capacity sinks in new_internal')
@@ -316,8 +316,8 @@ def _s3(ctx):
             continue
         g = ctx.graph(name, 'BCast' if 'broadcast' in name else 'MPMC')
         x = g.x
-        nones = [nid for (nid, si, rv) in x.aggs(r'option::Option::None$') if g.nodes[nid].inst == g.root_inst]
-        somes = [(nid, si) for (nid, si, rv) in x.aggs(r'option::Option::Some$') if g.nodes[nid].inst == g.root_inst]
+        nones = [nid for (nid, si, rv) in x.aggs(r'option::Option::None$') if x.home(nid) == g.root_inst]
+        somes = [(nid, si) for (nid, si, rv) in x.aggs(r'option::Option::Some$') if x.home(nid) == g.root_inst]
         commits = [a for a in x.atoms_on('ReaderPos.pos_data') if a.op in WRITE_OPS]
         errs = {nid for (nid, si, rv) in x.aggs(r'TryRecvError::(Empty|Disconnected)$')}
         ok = bool(nones) and bool(somes) and all(x.dom(errs, n) for n in nones)
